@@ -91,6 +91,7 @@ func main() {
 	workers := fs.Int("workers", 16, "parallel worker processes")
 	rwstats := fs.String("rwstats", "", "rewriter statistics file to embed into the evidence")
 	fs.Parse(os.Args[2:])
+	loadLineMap()
 	switch os.Args[1] {
 	case "list":
 		for _, i := range reg.For(*prop, tierOf(*tier)) {
@@ -105,6 +106,31 @@ func main() {
 	default:
 		fmt.Fprintln(os.Stderr, "unknown command")
 		os.Exit(2)
+	}
+}
+
+// loadLineMap reads linemap.json next to the executable (written by the rewriter at build time).
+func loadLineMap() {
+	self, err := os.Executable()
+	if err != nil {
+		return
+	}
+	b, err := os.ReadFile(filepath.Join(filepath.Dir(self), "linemap.json"))
+	if err != nil {
+		return
+	}
+	raw := map[string]map[string]string{}
+	if json.Unmarshal(b, &raw) != nil {
+		return
+	}
+	vs.LineMap = map[string]map[int]string{}
+	for f, m := range raw {
+		mm := map[int]string{}
+		for k, v := range m {
+			n, _ := strconv.Atoi(k)
+			mm[n] = v
+		}
+		vs.LineMap[f] = mm
 	}
 }
 
@@ -322,6 +348,8 @@ func run(prop, tier string, budget float64, evidence, known, replays string, wor
 		}
 		if st.EngineError != "" {
 			engineErr += st.Scenario + ": " + st.EngineError + "\n"
+		} else if st.Executions > 0 && st.Complete == 0 && st.SleepBlocked == 0 && len(st.Violations) == 0 {
+			engineErr += st.Scenario + ": VACUOUS: no execution ran to completion (every one was pruned)\n"
 		}
 		if len(samples) < 3 && len(st.SampleTrace) > 0 {
 			samples = append(samples, map[string]any{"scenario": st.Scenario, "default_schedule_trace": st.SampleTrace, "observations": st.Sample})
